@@ -365,6 +365,15 @@ PROPS['C15'] = {
                     'the image torn inside the final page-0 write is outside the claim (see claim text)',
                     'ImageWriter::{add_*,finalize} and E57Writer::{add_pointcloud,add_blob,add_image} are thin wrappers (no own device access) and not under contract'],
 }
+for _p in ('C11', 'C16', 'C06', 'C02', 'C15'):
+    PROPS[_p]['native'] = ['pw_n']
+for _p in ('C16', 'C06', 'C02'):
+    PROPS[_p]['native'] = ['pw_n', 'blob_n']
+for _p in ('C14', 'C10', 'C01'):
+    PROPS[_p]['native'] = ['pcw_n']
+for _p in ('C17', 'C09', 'C03', 'C05'):
+    PROPS[_p]['native'] = ['rd_n']
+
 FIX_COMMITS = ['4bb8197', '4c9a29a', '15147a8', '4e117ba', 'b93d656', 'a099e6e', 'e707a6b', '30d67e9', '4443841', '1d90b93', 'ec0e9b9', 'ed32bde']
 
 _PENDING = 'unit not completed yet in the build round (applicable; see DESIGN.md §1) — not claimed until its obligations are discharged'
